@@ -4,6 +4,7 @@ Writes seeded/RESULTS.json and prints one line per seed.  Usage: run_all_seeds.p
 import json, os, subprocess, sys
 HERE = os.path.dirname(os.path.dirname(os.path.abspath(__file__)))
 ids = sys.argv[1:] or sorted(d for d in os.listdir(os.path.join(HERE, "seeded")) if os.path.isdir(os.path.join(HERE, "seeded", d)))
+RES = os.path.join(HERE, "seeded", "RESULTS.json")
 results = {}
 for sid in ids:
     d = os.path.join(HERE, "seeded", sid)
@@ -18,4 +19,13 @@ for sid in ids:
     results[sid] = dict(check=prop, caught=r.get("caught"), baseline_ok=r.get("baseline_ok"), demo_clean=r.get("demo_clean_exit"),
                         demo_changed=r.get("demo_changed_exit"), lines=r.get("check_lines"))
     print(sid, prop, "caught" if r.get("caught") else "MISSED", (r.get("check_lines") or [""])[-1][:120], flush=True)
-    json.dump(results, open(os.path.join(HERE, "seeded", "RESULTS.json"), "w"), indent=1)
+    # merge into the file (several invocations may run side by side, one seed each)
+    import fcntl
+    with open(RES + ".lock", "w") as lk:
+        fcntl.flock(lk, fcntl.LOCK_EX)
+        try:
+            allres = json.load(open(RES))
+        except Exception:
+            allres = {}
+        allres[sid] = results[sid]
+        json.dump(dict(sorted(allres.items())), open(RES, "w"), indent=1)
